@@ -143,3 +143,11 @@ add("C12", "c12",
               dict(name="race", mode="race", run="^TestRaced$", shards=3, scale=10, timeout=3000),
               dict(name="loops", mode="race", run="^TestRacedLoops$", shards=2, scale=10, timeout=3000)]},
     replay_modes=["sched", "race"])
+
+# ---- C19 Limiter (sampled schedules, plain and under the race detector) ---------------------------
+add("C19", "c19",
+    {"jobs": [dict(name="plain", mode="plain", run="^TestLimiter$", shards=3, scale=1, timeout=600),
+              dict(name="race", mode="race", run="^TestLimiter$", shards=2, scale=0.5, timeout=600)]},
+    {"jobs": [dict(name="plain", mode="plain", run="^TestLimiter$", shards=10, scale=20, timeout=3000),
+              dict(name="race", mode="race", run="^TestLimiter$", shards=6, scale=8, timeout=3000)]},
+    replay_modes=["plain", "race"])
